@@ -167,8 +167,16 @@ def run(chk, replay=None):
         tour, st1 = edge_cover(edges, chk.seed)
         st1["tlc"] = st0
         allp, st2 = vf.tlc_gen("StreamMgmtGen.tla", "StreamMgmtGenAll.cfg" if quick else "StreamMgmtGenAllBig.cfg")
-        sim, st3 = vf.tlc_simulate("StreamMgmtGen.tla", "StreamMgmtGenSim.cfg", num=150 if quick else 6000,
-                                   depth=30 if quick else 40, seed=chk.seed, workers=WORKERS)
+        # TLC -simulate evaluates the emitter on every candidate successor, so the export holds the walks and all
+        # their one-step side branches: a seeded sample of the longest ones is replayed
+        sim, st3 = vf.tlc_simulate("StreamMgmtGen.tla", "StreamMgmtGenSim.cfg", num=40 if quick else 400,
+                                   depth=40 if quick else 80, seed=chk.seed, workers=WORKERS)
+        rnd = random.Random(chk.seed)
+        sim.sort(key=lambda b: (-len(b["steps"]), vf._canon(b)))
+        keep = 300 if quick else 5000
+        sim = sim[:keep // 2] + rnd.sample(sim[keep // 2:], min(keep // 2, max(0, len(sim) - keep // 2)))
+        st3["replayed"] = len(sim)
+        st3["max_depth"] = max([len(b["steps"]) for b in sim] or [0])
         behs = vf.maximal_behaviours(tour + allp + sim)
         chk.cov["generation"] = {"transition_tour": st1, "all_paths": st2, "simulate": st3}
     vf.write_ndjson(chk.path("behaviours.ndjson"), behs)
